@@ -72,12 +72,16 @@ def _check(prop, tier, seed, replay, work, t0):
             known.append(f)
             continue
         path = vlib.save_replay(prop, "obs%d" % v["line"], {"property": prop, "invariants": v["names"], "observation": rec})
+        if rec.get("site") == "ClusterEncoder":
+            violations.append({"replay": path, "what": "%s at site ClusterEncoder (the cluster client's request encoder): sent argument lengths %s, the node received %s, bytes identical: %s" % (
+                ",".join(v["names"]), rec["sent"], rec["got"], rec["same"])})
+            continue
         violations.append({"replay": path, "what": "%s at site %s: arg lengths %s heartbeats %s reported %s" % (
             ",".join(v["names"]), rec["site"], rec["cmds"], rec["hb"], [(o["lens"], o["off"] - rec["start"], o["same"]) for o in rec["obs"]][:4])})
     cov = {"states": r["distinct"], "transitions": r["generated"], "traces_validated_against_impl": nobs, "samples": samples[:3],
            "exhaustive": True, "tlc_enumerated_streams": n, "streams_run": nstreams,
            "explanation": "all command sequences of <= 2 commands x <= 3 arguments with lengths in %s and heartbeats, each through Decoder (fragmented reads, "
-                          "bufio 16/64/4096), parseAofCommand and Writer->Decoder; plus seeded random streams with arguments up to %d bytes" % (lens, maxarg)}
+                          "bufio 16/64/4096), parseAofCommand, Writer->Decoder and the cluster client's encoder -> a cluster node; plus seeded random streams with arguments up to %d bytes" % (lens, maxarg)}
     vlib.write_evidence(prop, tier, seed, "model_checking", cov,
                         ["argument contents (CR/LF, RESP type bytes, 0x00, 0xFF patterns) are compared byte-wise in the driver; TLC judges counts, lengths, the identity flag and offsets",
                          "offsets < 2^31"], time.time() - t0, len(viol))
